@@ -7,6 +7,7 @@ import (
 	"crypto/sha256"
 	"encoding/json"
 	"fmt"
+	"math/big"
 	"strings"
 	"sync"
 	"testing"
@@ -122,6 +123,15 @@ func TestMC_C32(t *testing.T) {
 		return
 	}
 	accts = append(accts, *lz)
+	capped := false
+
+	// addresses whose printed base58 body ENDS in a run of '1' (zero digits): the
+	// 68-byte payload is 0 modulo 58^k. Deterministic search over pairs of a spend
+	// key pool x a view key pool (the checksum depends on both); the modulus is
+	// tested arithmetically, only hits are printed. Spend keys with a small first
+	// byte (92-character body) come first.
+	crafted, craftedInfo := c32TrailingOnes(verifmc.Pick(c, 1200, 2000))
+	c.Set("trailing_one_addresses", craftedInfo)
 	var masks []c32Mask
 	for i := 0; i < nMask; i++ {
 		l := fmt.Sprintf("mask-%d", i)
@@ -151,7 +161,7 @@ func TestMC_C32(t *testing.T) {
 		}
 	}
 	msg := crypto.Blake3Hash([]byte("c32 spend message"))
-	c.ParallelN(len(pairs), "derivation product", func(_, pi int) {
+	capped = !c.ParallelN(len(pairs), "derivation product", func(_, pi int) {
 		ac, mk := accts[pairs[pi].ai], masks[pairs[pi].mi]
 		A, B := ac.a.PublicViewKey, ac.a.PublicSpendKey
 		a, b := ac.a.PrivateViewKey, ac.a.PrivateSpendKey
@@ -252,7 +262,7 @@ func TestMC_C32(t *testing.T) {
 				}
 			}
 		}
-	})
+	}) || capped
 
 	// ---------------- (b) print / parse ----------------
 	patterns := [][32]byte{{}, {}, {}, {}}
@@ -388,8 +398,8 @@ func TestMC_C32(t *testing.T) {
 		}
 	}
 
-	// addresses: string and JSON forms of every pool element
-	for _, ac := range accts {
+	// addresses: string and JSON forms of every pool element (and of the crafted trailing-'1' addresses)
+	for _, ac := range append(append([]c32Acct{}, accts...), crafted...) {
 		s := ac.a.String()
 		c.Eval(1)
 		c.Distinct("addr|" + s)
@@ -441,6 +451,114 @@ func TestMC_C32(t *testing.T) {
 		}
 	}
 
+	// base58 structure: strings built from 10-character chunk patterns (Decode works
+	// on chunks of ten digits): full product of <=3 full chunks x every partial tail
+	// length 0..9 x tail patterns. base58 is a bijection between alphabet strings
+	// and byte strings (leading '1' <-> leading zero byte), so Encode(Decode(s)) == s.
+	{
+		chunkPats := []string{"1111111111", "1111111112", "2111111111", "zzzzzzzzzz", "3mJr7AoUXx", "11111z1111"}
+		nChunks := verifmc.Pick(c, 3, 4)
+		var heads []string
+		level := []string{""}
+		heads = append(heads, "")
+		for k := 1; k <= nChunks; k++ {
+			var next []string
+			for _, h := range level {
+				for _, p := range chunkPats {
+					next = append(next, h+p)
+				}
+			}
+			heads = append(heads, next...)
+			level = next
+		}
+		tailSet := map[string]bool{"": true}
+		for l := 1; l <= 9; l++ {
+			tailSet[strings.Repeat("1", l)] = true
+			tailSet[strings.Repeat("1", l-1)+"2"] = true
+			tailSet["2"+strings.Repeat("1", l-1)] = true
+			tailSet[strings.Repeat("z", l)] = true
+			tailSet["3mJr7AoUXx"[:l]] = true
+			tailSet["1z1111111"[:l]] = true
+		}
+		var tails []string
+		for t := range tailSet {
+			tails = append(tails, t)
+		}
+		c.Set("base58_chunk_strings", len(heads)*len(tails))
+		for _, h := range heads {
+			if c.Expired("base58 chunk strings") {
+				capped = true
+				break
+			}
+			for _, t := range tails {
+				str := h + t
+				c.Eval(1)
+				c.Distinct("b58s|" + str)
+				d := base58.Decode(str)
+				back := base58.Encode(d)
+				if back != str {
+					c.Outcome("b58s:ROUNDTRIP-FAIL")
+					cls := "inner-zero-chunk"
+					if strings.Trim(t, "1") == "" && t != "" {
+						cls = "trailing-zero-chunk"
+					}
+					c.Violation("base58:string-roundtrip:"+cls, fmt.Sprintf("base58.Encode(base58.Decode(%q)) = %q (decoded %x)", str, back, d), map[string]any{"string": str})
+				} else {
+					c.Outcome("b58s:roundtrip")
+				}
+			}
+		}
+		// bytes with zero runs at every offset: lengths 0..12 completely, 68-byte payloads with runs {1,2,4,8,16}
+		bytesCase := func(b []byte, kind string) {
+			e := base58.Encode(b)
+			c.Eval(1)
+			c.Distinct("b58z|" + string(b))
+			if got := base58.Decode(e); !bytes.Equal(got, b) {
+				c.Outcome("b58:ROUNDTRIP-FAIL")
+				c.Violation("base58:roundtrip:"+kind, fmt.Sprintf("base58 %x -> %q -> %x", b, e, got), fmt.Sprintf("%x", b))
+			} else {
+				c.Outcome("b58:roundtrip")
+			}
+		}
+		for l := 0; l <= 12; l++ {
+			for _, bg := range []byte{0xff, 0x01, 0x3a} {
+				for o := 0; o <= l; o++ {
+					for r := 0; o+r <= l; r++ {
+						b := bytes.Repeat([]byte{bg}, l)
+						for i := o; i < o+r; i++ {
+							b[i] = 0
+						}
+						bytesCase(b, "zero-run")
+					}
+				}
+			}
+		}
+		pay := append(append([]byte{}, accts[0].a.PublicSpendKey[:]...), accts[0].a.PublicViewKey[:]...)
+		pay = append(pay, 9, 8, 7, 6)
+		for o := 0; o < len(pay); o++ {
+			for _, r := range []int{1, 2, 4, 8, 16} {
+				if o+r > len(pay) {
+					continue
+				}
+				b := append([]byte{}, pay...)
+				for i := o; i < o+r; i++ {
+					b[i] = 0
+				}
+				bytesCase(b, "zero-run-68")
+			}
+		}
+		// payloads that are multiples of 58^k (body ends in k '1' digits), k = 1..12, with 0..2 leading zero bytes
+		for k := 1; k <= 12; k++ {
+			m := new(big.Int).Exp(big.NewInt(58), big.NewInt(int64(k)), nil)
+			for _, mult := range []int64{1, 57, 58, 59, 3363} {
+				v := new(big.Int).Mul(m, big.NewInt(mult))
+				for z := 0; z <= 2; z++ {
+					bytesCase(append(make([]byte, z), v.Bytes()...), "multiple-of-58^k")
+				}
+			}
+		}
+	}
+
 	// ---------------- (c) address string mutation sweep ----------------
 	// oracle: accepted => prints back identically
 	try := func(kind, s string, replay any) {
@@ -477,9 +595,25 @@ func TestMC_C32(t *testing.T) {
 
 	sweep := append([]c32Acct{}, accts[:min(nSweep, nAddr)]...)
 	sweep = append(sweep, *lz)
+	sweep = append(sweep, crafted...)
 	for _, ac := range sweep {
+		if c.Expired("address mutation sweep") {
+			capped = true
+			break
+		}
 		s := ac.a.String()
 		try("identity", s, s)
+		// runs of 1..10 '1' characters inserted at EVERY offset of the body (this covers
+		// every 10-character chunk boundary of the decoder and its neighbours)
+		for pos := 3; pos <= len(s); pos++ {
+			for n := 1; n <= 10; n++ {
+				kind := "insert-1-run"
+				if (pos-3)%10 == 0 {
+					kind = "insert-1-run-chunk-aligned"
+				}
+				try(kind, s[:pos]+strings.Repeat("1", n)+s[pos:], map[string]any{"base": s, "insert_at": pos, "ones": n})
+			}
+		}
 		for pos := 0; pos < len(s); pos++ {
 			for _, ch := range repl {
 				if s[pos:pos+1] == ch {
@@ -571,6 +705,10 @@ func TestMC_C32(t *testing.T) {
 	c.Sample(map[string]any{"mutant": accts[0].a.String()[:20] + "0" + accts[0].a.String()[21:], "expect": "rejected (or, if accepted, prints back identically)"})
 	c.Sample(map[string]any{"cosi": crypto.CosiSignature{Signature: sigs[0], Mask: 0xa0}.String(), "expect": "JSON round trip keeps mask 0xa0"})
 
+	if capped {
+		return // wall-clock cap: partial enumeration, no completeness guards (run is reported exhaustive:false)
+	}
+	c.Require(len(crafted) >= 4, "trailing-'1' address search found only %d of the wanted shapes: %v", len(crafted), craftedInfo)
 	nIdx := int64(len(idx))
 	nPairs := int64(len(pairs))
 	c.Require(c.OutcomeCount("neg:index-differs") == nPairs*nIdx*(nIdx-1) || c.Violations() > 0, "negative index cases incomplete: %d", c.OutcomeCount("neg:index-differs"))
@@ -631,4 +769,67 @@ func c32BadPoints() [][32]byte {
 	o2[0], o2[31] = 0xec, 0x7f
 	out = append(out, id, zero, yp, ff, two, o2)
 	return out
+}
+
+// c32TrailingOnes searches pairs (spend key i, view key j) of two deterministic
+// pools of n keys for printed addresses whose base58 body ends in exactly 1, 2
+// and 3 '1' characters, for the 93-character body and (ends in 1 / 2) for the
+// 92-character body. First hit per shape in i-major order.
+func c32TrailingOnes(n int) ([]c32Acct, []string) {
+	type k struct {
+		label string
+		priv  crypto.Key
+		pub   crypto.Key
+		mod   uint64
+	}
+	const M = 58 * 58 * 58
+	bm := big.NewInt(M)
+	shift := func(pub crypto.Key, bits uint) uint64 {
+		v := new(big.Int).SetBytes(pub[:])
+		v.Lsh(v, bits)
+		return v.Mod(v, bm).Uint64()
+	}
+	var small, normal, views []k
+	for i := 0; i < n; i++ {
+		ls, lv := fmt.Sprintf("sfx-spend-%d", i), fmt.Sprintf("sfx-view-%d", i)
+		sp := crypto.NewKeyFromSeed(c32Seed(ls))
+		vp := crypto.NewKeyFromSeed(c32Seed(lv))
+		ks := k{ls, sp, sp.Public(), 0}
+		ks.mod = shift(ks.pub, 288)
+		kv := k{lv, vp, vp.Public(), 0}
+		kv.mod = shift(kv.pub, 32)
+		if ks.pub[0] <= 7 {
+			small = append(small, ks)
+		} else {
+			normal = append(normal, ks)
+		}
+		views = append(views, kv)
+	}
+	want := map[string]bool{"93/1": true, "93/2": true, "93/3": true, "92/1": true, "92/2": true}
+	var out []c32Acct
+	var info []string
+	buf := make([]byte, 0, 3+64)
+	for _, sp := range append(small, normal...) {
+		if len(want) == 0 {
+			break
+		}
+		for _, vw := range views {
+			buf = append(append(append(buf[:0], MainAddressPrefix...), sp.pub[:]...), vw.pub[:]...)
+			cs := crypto.Sha256Hash(buf)
+			tot := (sp.mod + vw.mod + uint64(cs[0])<<24 + uint64(cs[1])<<16 + uint64(cs[2])<<8 + uint64(cs[3])) % M
+			if tot%58 != 0 {
+				continue
+			}
+			a := Address{PrivateSpendKey: sp.priv, PrivateViewKey: vw.priv, PublicSpendKey: sp.pub, PublicViewKey: vw.pub}
+			body := a.String()[3:]
+			ones := len(body) - len(strings.TrimRight(body, "1"))
+			shape := fmt.Sprintf("%d/%d", len(body), ones)
+			if want[shape] {
+				delete(want, shape)
+				out = append(out, c32Acct{"trailing-ones:" + sp.label + "+" + vw.label, a})
+				info = append(info, fmt.Sprintf("body-len/trailing-ones=%s seeds=%s+%s %s", shape, sp.label, vw.label, a.String()))
+			}
+		}
+	}
+	return out, info
 }
